@@ -414,6 +414,7 @@ static void need_case(struct enc *e, int *L, int len, int r)
     ev_int("l1", verif_live);
     ev_end();
 }
+static int g_need_onlylen;   /* sweep_need_len: only lists of exactly this length */
 static void sweep_need(int argc, char **argv)
 {
     struct enc e; int n, len, L[8], i; uint64_t cap, seed;
@@ -425,7 +426,7 @@ static void sweep_need(int argc, char **argv)
     if (maxl > 6) maxl = 6;
     e.desc = do_create(e.be, e.k, e.m, e.hd, w, e.ct, 0);
     if (e.desc <= 0) return;
-    for (len = 1; len <= maxl; len++) {
+    for (len = (g_need_onlylen ? maxl : 1); len <= maxl; len++) {
         double total = 1; for (i = 0; i < len; i++) total *= (n - i);
         if (total <= (double)cap) {
             /* all injective sequences of length len (odometer) */
@@ -529,6 +530,7 @@ static int run_script(const char *path)
         shm->cmd = idx; shm->sub = -1;
         if (!strcmp(argv[0], "sweep_dec")) sweep_dec(argc, argv);
         else if (!strcmp(argv[0], "sweep_need")) sweep_need(argc, argv);
+        else if (!strcmp(argv[0], "sweep_need_len")) { g_need_onlylen = 1; sweep_need(argc, argv); g_need_onlylen = 0; }
         else if (!strcmp(argv[0], "oob_dest")) oob_dest(argv);
         else if (!strcmp(argv[0], "one_dec")) one_case(1, argv);
         else if (!strcmp(argv[0], "one_rec")) one_case(0, argv);
